@@ -6,14 +6,19 @@
      completion once started (only supplied slots), the dispatcher never idles in a supplied slot while an instance
      is pending, instances of one callback are served in arrival order, and (timer) an instance outside the class
      {analysed timer, higher-priority timers} never starts while a class instance is pending.
-   PARTIAL: the processing-chain analysis (Lemma 8) is NOT proved sound (release-on-completion semantics of chains
-   is not mechanised); for it the development proves its exact characterisation (C07) only, and its safety is
-   exercised by the executor simulation oracle of this check. *)
+   - the processing-chain analysis (Lemma 8) against the same dispatcher class with RELEASE-ON-COMPLETION semantics
+     (Proofs/ChainSound.v: chain_jobs): every source event gives rise to one instance per callback of the chain, the
+     instance of the first callback is released when the source event arrives, the instance of callback l+1 exactly
+     when the instance of callback l for the same event completes; only the source events (not the chain's
+     instances) comply with the chain's arrival bound.  The end-to-end response time -- from the arrival of the
+     source event to the completion of the last callback's instance -- is at most the returned bound; if the job
+     set is closed under succession, that instance exists for EVERY source event. *)
 From Coq Require Import Arith NArith List Lia Bool.
 From RTA.Model Require Import Base Arrival Wcet Demand Supply Eval WellFormed.
 From RTA.Spec Require Import Sched Events TaskModel Reservation SupplySched.
 From RTA.Spec Require Import NonPreemptive.
-From RTA.Proofs Require Import SupplyProofs ReservationProofs FifoEndToEnd EsSound PpSound.
+From Coq Require Import Permutation.
+From RTA.Proofs Require Import SupplyProofs ReservationProofs FifoEndToEnd EsSound PpSound ChainSound.
 
 (* every reservation schedule a supply model admits delivers at least provided_service in EVERY window *)
 Theorem C04_supply_bound_holds_for_every_budget_placement : forall sb sigma, wf_sb sb -> supply_admits sb sigma ->
@@ -58,3 +63,42 @@ Proof. exact timer_sound. Qed.
 (* the witness of known finding C07-ecrts19-pruning is NOT an unsoundness: real arrival offsets are strictly below the
    maximum busy window, the pruned analysis' bound 5 holds for every compliant job set and abstract schedule *)
 Definition C04_c07_witness_is_sound := c07_witness_sound.
+
+(* processing chain (Lemma 8): chain = pre ++ [i] (indices into tasks, all with the source's arrival bound ab), srcs = arrival
+   times of the source events, ev k = the source event instance k stems from *)
+Theorem C04_processing_chain_sound : forall dbg sb (tasks : list task) (pre : list nat) (i : nat) (ab : AB) limit R
+    jobs sched sigma (srcs : list nat) (ev : nat -> nat),
+  wf_sb sb -> supply_admits sb sigma -> Forall fifo_task_ok tasks ->
+  NoDup (pre ++ [i]) ->
+  (forall c, In c (pre ++ [i]) -> (c < length tasks)%nat /\ fst (nth c tasks (Never, 0)) = ab) ->
+  e_chain dbg sb (chain_rb ab tasks i) (Agg (map (chain_rb ab tasks) pre))
+    (Agg (map (chain_rb ab tasks) pre ++ [chain_rb ab tasks i]))
+    (Agg (map rb_of (select_tasks (off_chain (pre ++ [i])) tasks))) limit = ROk R ->
+  valid jobs sched -> uses_supply sched sigma -> work_conserving_under jobs sched sigma ->
+  runs_to_completion_under jobs sched sigma -> fifo_within_task jobs sched ->
+  (exists es, Permutation es srcs /\ admissible ab es) ->
+  chain_jobs jobs sched (pre ++ [i]) srcs ev ->
+  respects_curves_off tasks (pre ++ [i]) jobs -> respects_costs tasks jobs ->
+  forall k, (k < length jobs)%nat -> j_task (nth k jobs (mkJob 0 0 0)) = i ->
+    (cost jobs k <= service sched k (nth (ev k) srcs 0%nat + N.to_nat R))%nat.
+Proof. exact chain_sound. Qed.
+Theorem C04_processing_chain_sound_for_every_source_event : forall dbg sb (tasks : list task) (pre : list nat) (i : nat) (ab : AB) limit R
+    jobs sched sigma (srcs : list nat) (ev : nat -> nat),
+  wf_sb sb -> supply_admits sb sigma -> Forall fifo_task_ok tasks ->
+  NoDup (pre ++ [i]) ->
+  (forall c, In c (pre ++ [i]) -> (c < length tasks)%nat /\ fst (nth c tasks (Never, 0)) = ab) ->
+  e_chain dbg sb (chain_rb ab tasks i) (Agg (map (chain_rb ab tasks) pre))
+    (Agg (map (chain_rb ab tasks) pre ++ [chain_rb ab tasks i]))
+    (Agg (map rb_of (select_tasks (off_chain (pre ++ [i])) tasks))) limit = ROk R ->
+  valid jobs sched -> uses_supply sched sigma -> work_conserving_under jobs sched sigma ->
+  runs_to_completion_under jobs sched sigma -> fifo_within_task jobs sched ->
+  (exists es, Permutation es srcs /\ admissible ab es) ->
+  chain_jobs jobs sched (pre ++ [i]) srcs ev -> chain_jobs_complete jobs sched (pre ++ [i]) srcs ev ->
+  respects_curves_off tasks (pre ++ [i]) jobs -> respects_costs tasks jobs ->
+  forall e, (e < length srcs)%nat ->
+    exists k, (k < length jobs)%nat /\ j_task (nth k jobs (mkJob 0 0 0)) = i /\ ev k = e /\
+      (cost jobs k <= service sched k (nth e srcs 0%nat + N.to_nat R))%nat.
+Proof. exact chain_sound_total. Qed.
+(* non-vacuity (Proofs/ChainSound.v, all hypotheses proved for concrete systems): PeriodicS 2 5, chain c0 (1) -> c1 (2) on
+   Sporadic 20 0 plus one other callback: bound 13, attained (ch_completes, ch_tight); dedicated processor, source Sporadic 4 3,
+   two events: bound 7, observed 5 and 6 (d_total, d_observed) *)
